@@ -51,7 +51,12 @@ def run(ctx):
             cols = [[c[k] for c in curves] for k in range(6)]
             if not all(min(col) < level < max(col) for col in cols):
                 continue
-            kw = rng.choice([{}, {'test_stat': 'q'}, {'test_stat': 'qtilde', 'calctype': 'asymptotics'}])
+            # every option hypotest accepts besides the return_* flags must reach it unchanged, in both scan modes
+            sb = [tuple(b) for b in model.config.suggested_bounds()]
+            kw = rng.choice([{}, {'test_stat': 'q'}, {'test_stat': 'qtilde', 'calctype': 'asymptotics'},
+                             {'par_bounds': [(lo, hi * 0.5 + 0.5 * lo) for lo, hi in sb]},
+                             {'init_pars': [x * 1.01 for x in model.config.suggested_init()], 'test_stat': 'q'},
+                             {'fixed_params': [False] * len(sb), 'par_bounds': sb, 'calctype': 'asymptotics'}])
             calls.clear()
             o, e, (sc, results) = ul.upper_limit(data, model, scan=scan, level=level, return_results=True, **kw)
             got = [float(o)] + [float(x) for x in e]
